@@ -23,12 +23,16 @@ open(p, 'w').write(s)
 # seeded-change counts (between SEEDS-BEGIN/END), from seeded/*/meta.json
 sd = os.path.join(ROOT, 'seeded')
 tot = fi = nf = miss = 0
+retired = []
 per = {}
 for d in sorted(os.listdir(sd)):
     mp = os.path.join(sd, d, 'meta.json')
     if not os.path.isfile(mp):
         continue
     m = json.load(open(mp))
+    if m.get('retired'):
+        retired.append(d)
+        continue
     r = (m.get('detected_by') or {}).get(m['property'] + '/quick', 'not run')
     tot += 1
     if r.startswith('detected') and 'no-failing' in r:
@@ -41,7 +45,8 @@ for d in sorted(os.listdir(sd)):
 txt = (f"Current totals (generated from `seeded/*/meta.json`): **{tot}** kept changes; **{fi + nf}** detected by the quick check of the "
        f"property they target ({fi} with a concrete failing input, {nf} as a broken theorem/correspondence with `no-failing-input-found`), "
        f"{miss} not detected or not yet run. Per property (seed numbers; `:nf` = no-failing-input-found): "
-       + "; ".join(f"{k}: {' '.join(v)}" for k, v in sorted(per.items())) + ".")
+       + "; ".join(f"{k}: {' '.join(v)}" for k, v in sorted(per.items())) + "."
+       + (f" Retired (mechanism made inexpressible by a later repair; see its meta.json): {', '.join(retired)}." if retired else ""))
 s = open(p).read()
 a = "<!-- SEEDS-BEGIN -->"; b = "<!-- SEEDS-END -->"
 if a in s:
